@@ -1,2 +1,27 @@
-(* placeholder; theorems are added below *)
-From Hexital Require Import Base.Prelude.
+(* C09 - Calculation is total: no exception, only finite numbers, no gaps after warm-up.
+   Proved over the reals for the recurrence specifications of TR, ATR, HLA, OBV, VWAP, EMA
+   and RSI: no step can raise (every divisor is non-zero: periods are positive, VWAP and
+   RSI test their divisor first).  Finiteness is immediate in R; overflow of binary64 is
+   outside the theorem.  All other indicators: bit-exact correspondence + falsifier on
+   degenerate streams. *)
+From Coq Require Import ZArith List String Bool Reals.
+From Hexital Require Import Base.Prelude Base.Num Model.Candle Inst.RealInst Spec.Steppers Proofs.SpecReal.
+Local Open Scope R_scope.
+
+Theorem C09_steps_never_raise :
+  forall (nd : Z) (s : state ROps) (c : inp ROps) (p : Z) (sm : R), (0 < p)%Z ->
+  (exists v s', step ROps S_TR nd s c = Ok (v, s')) /\
+  (exists v s', step ROps (S_ATR p) nd s c = Ok (v, s')) /\
+  (exists v s', step ROps S_HLA nd s c = Ok (v, s')) /\
+  (exists v s', step ROps S_OBV nd s c = Ok (v, s')) /\
+  (exists v s', step ROps S_VWAP nd s c = Ok (v, s')) /\
+  (forall x, exists v s', ema_step ROps p sm nd s x = Ok (v, s')).
+Proof. exact steps_total. Qed.
+Print Assumptions C09_steps_never_raise.
+
+(* RSI never divides by a zero average loss: it reads 100 *)
+Theorem C09_rsi_total :
+  forall (nd : Z) (g l : R), (0 <= nd)%Z -> 0 <= g -> 0 <= l ->
+  exists r, rsi_value ROps nd g l = Ok r /\ 0 <= r <= 100.
+Proof. exact rsi_value_range. Qed.
+Print Assumptions C09_rsi_total.
